@@ -1,6 +1,7 @@
 #!/bin/sh
 # usage: tools_seeds_all.sh [tier] [parallel]   re-tests every seeded change (seeded/<id>/) against the check of the property it breaks,
 # each on its own scratch copy of /repo (VERIF_REPO), so /repo itself is never touched.  One line per seed; exit 1 if one is missed.
+root=$(cd "$(dirname "$0")" && pwd)
 tier=${1:-quick}; par=${2:-3}
 one() {
   d=$1; tier=$2
@@ -10,7 +11,7 @@ one() {
   mkdir -p "$scratch/repo"
   git -C ${VP_RUN_REPO:-/repo} archive HEAD | tar -x -C "$scratch/repo"
   if ( cd "$scratch/repo" && git init -q . && git apply "$d/patch.diff" ); then
-    out=$(cd "$(dirname "$0")" && VERIF_REPO="$scratch/repo" VERIF_NO_EVIDENCE=1 ./check "$prop" --tier "$tier" 2>&1); rc=$?
+    out=$(cd "$root" && VERIF_REPO="$scratch/repo" VERIF_NO_EVIDENCE=1 ./check "$prop" --tier "$tier" 2>&1); rc=$?
     echo "seed $id property $prop tier $tier: rc=$rc $(echo "$out" | grep -E 'failing clause' | head -2 | cut -c1-120 | tr '\n' '|')"
   else
     echo "seed $id: patch does not apply rc=9"
@@ -18,6 +19,6 @@ one() {
   rm -rf "$scratch"
 }
 if [ "$1" = "--one" ]; then one "$2" "$3"; exit 0; fi
-mkdir -p "$(dirname "$0")/.work"; ls -d "$(dirname "$0")"/seeded/*/ | xargs -P "$par" -I{} "$0" --one {} "$tier" | tee "$(dirname "$0")/.work/seeds_all.log"
-if grep -v "rc=1 " "$(dirname "$0")/.work/seeds_all.log" | grep -q "^seed"; then exit 1; fi
+mkdir -p "$root/.work"; ls -d "$root"/seeded/*/ | xargs -P "$par" -I{} "$root/tools_seeds_all.sh" --one {} "$tier" | tee "$root/.work/seeds_all.log"
+if grep -v "rc=1 " "$root/.work/seeds_all.log" | grep -q "^seed"; then exit 1; fi
 exit 0
